@@ -341,6 +341,72 @@ def powMod (b e m : Int) : Except PyErr Int :=
   else if e < 0 ∨ m < 0 then .error .other
   else .ok ((Secp.powMod (b % m).toNat e.toNat m.toNat : Nat) : Int)
 
+/-! ### hex strings as real strings: `str.strip`, `bytes.fromhex`, `int(s, 16)` -/
+
+/-- `c.isspace()` for an ASCII character: what `str.strip()` removes — `\t \n \v \f \r`, `\x1c`–`\x1f` and the space -/
+def isSpaceU (c : Char) : Bool := (9 ≤ c.toNat && c.toNat ≤ 13) || (28 ≤ c.toNat && c.toNat ≤ 32)
+/-- C `isspace` in the C locale (`Py_ISSPACE`): what `bytes.fromhex` skips and `int()` strips — no `\x1c`–`\x1f` -/
+def isSpaceC (c : Char) : Bool := (9 ≤ c.toNat && c.toNat ≤ 13) || c.toNat == 32
+
+/-- `s.strip()` on ASCII strings (Unicode whitespace is outside the modelled subset: `unsupported`, never a wrong answer) -/
+def strStrip (s : List Char) : Except PyErr (List Char) :=
+  if s.any (fun c => c.toNat ≥ 128) then .error .unsupported
+  else .ok ((s.dropWhile isSpaceU).reverse.dropWhile isSpaceU).reverse
+
+/-- `s.startswith(pre)` -/
+def strStartswith (s pre : List Char) : Bool := pre.isPrefixOf s
+
+/-- value of one hex digit -/
+def hexVal (c : Char) : Option Nat :=
+  if '0' ≤ c ∧ c ≤ '9' then some (c.toNat - 48)
+  else if 'a' ≤ c ∧ c ≤ 'f' then some (c.toNat - 87)
+  else if 'A' ≤ c ∧ c ≤ 'F' then some (c.toNat - 55)
+  else none
+
+/-- `bytes.fromhex(s)`: pairs of hex digits, ASCII whitespace skipped between (not inside) pairs; anything else `ValueError` -/
+def bytesFromhex : List Char → Except PyErr Bytes
+  | [] => .ok []
+  | [c] => if isSpaceC c then .ok [] else .error .valueError
+  | c :: d :: rest =>
+    if isSpaceC c then bytesFromhex (d :: rest)
+    else match hexVal c, hexVal d with
+      | some hi, some lo => (bytesFromhex rest).map (UInt8.ofNat (hi * 16 + lo) :: ·)
+      | _, _ => .error .valueError
+
+/-- the digit scan of CPython's `PyLong_FromString` for base 16: hex digits with single underscores between them; returns the
+value, the number of digits and what follows (`none`: doubled or trailing underscore) -/
+def scanHex : List Char → Bool → Nat → Nat → Option (Nat × Nat × List Char)
+  | [], pu, acc, nd => if pu then none else some (acc, nd, [])
+  | c :: r, pu, acc, nd =>
+    if c = '_' then (if pu then none else scanHex r true acc nd)
+    else match hexVal c with
+      | some d => scanHex r false (acc * 16 + d) (nd + 1)
+      | none => if pu then none else some (acc, nd, c :: r)
+
+/-- `int(s, 16)` on ASCII strings: surrounding C whitespace, an optional sign, an optional `0x`/`0X` (after which one underscore may
+follow), digits with single underscores between them; anything else `ValueError`.  Non-ASCII strings (Unicode digits and spaces) are
+outside the modelled subset (`unsupported`). -/
+def intBase16 (s : List Char) : Except PyErr Int :=
+  if s.any (fun c => c.toNat ≥ 128) then .error .unsupported
+  else
+    let t := s.dropWhile isSpaceC
+    let neg := t.head? == some '-'
+    let t := if t.head? == some '-' || t.head? == some '+' then t.tail else t
+    let pfx := t.head? == some '0' && (t.tail.head? == some 'x' || t.tail.head? == some 'X')
+    let t := if pfx then (if (t.drop 2).head? == some '_' then t.drop 3 else t.drop 2) else t
+    if t.head? == some '_' then .error .valueError
+    else
+      match scanHex t false 0 0 with
+      | none => .error .valueError
+      | some (v, nd, rest) =>
+        if nd = 0 then .error .valueError
+        else if rest.all isSpaceC then .ok (if neg then -(v : Int) else (v : Int))
+        else .error .valueError
+
+/-- the lower-case hex string of a byte string (`bytes.hex()`) as a string -/
+def hexChar (n : Nat) : Char := if n < 10 then Char.ofNat (48 + n) else Char.ofNat (87 + n)
+def hexOf (b : Bytes) : List Char := b.flatMap fun u => [hexChar (u.toNat / 16), hexChar (u.toNat % 16)]
+
 @[simp] theorem lxor_ofNat (a b : Nat) : lxor (a : Int) (b : Int) = ((a ^^^ b : Nat) : Int) := rfl
 @[simp] theorem range_ofNat (n : Nat) : range (n : Int) = (List.range n).map Int.ofNat := by simp [range]
 
